@@ -91,6 +91,62 @@ func checkC07(r *core.Result) {
 			if munits[store] != nil {
 				gotM = munits[store].String()
 			}
+			// every computing exit of Size() lies behind the statement that adds the storage's length
+			// (the early return of a cached value is the H-stale construct of C09, not an exit that computes)
+			{
+				recv := recvObj(info, mc.size)
+				addPos := token.NoPos
+				for _, st := range mc.size.Body.List {
+					ast.Inspect(st, func(nn ast.Node) bool {
+						if se, ok := nn.(*ast.SelectorExpr); ok && se.Sel.Name == store {
+							if id, ok := se.X.(*ast.Ident); ok && info.Uses[id] == recv && !addPos.IsValid() {
+								addPos = st.Pos()
+							}
+						}
+						return true
+					})
+				}
+				early := token.NoPos
+				ast.Inspect(mc.size.Body, func(nn ast.Node) bool {
+					if _, ok := nn.(*ast.FuncLit); ok {
+						return false
+					}
+					ret, ok := nn.(*ast.ReturnStmt)
+					if !ok || !addPos.IsValid() || ret.Pos() > addPos || early.IsValid() {
+						return true
+					}
+					// the cached-size return: `if sz = atomic.Load…; sz > 0 { return sz }`
+					cached := false
+					for cur := ast.Node(ret); cur != nil; cur = parentMap(mc.size.Body)[cur] {
+						if is, ok := cur.(*ast.IfStmt); ok && is.Init == nil {
+							// if m == nil { return 0 }
+							if be, ok := is.Cond.(*ast.BinaryExpr); ok && be.Op == token.EQL && isNilIdentExpr(be.Y) {
+								if id, ok := be.X.(*ast.Ident); ok && info.Uses[id] == recv {
+									cached = true
+								}
+							}
+						}
+						if is, ok := cur.(*ast.IfStmt); ok && is.Init != nil {
+							ast.Inspect(is.Init, func(m ast.Node) bool {
+								if c, ok := m.(*ast.CallExpr); ok && isAtomicCall(info, c) {
+									cached = true
+								}
+								return true
+							})
+						}
+					}
+					if !cached {
+						early = ret.Pos()
+					}
+					return true
+				})
+				pos := mc.pos(ex, mc.size.Pos())
+				if early.IsValid() {
+					pos = mc.pos(ex, early)
+				}
+				r.GroupOb("K-sized-exits", "every computing exit of Size() includes the unknown-field storage", mc.name(), pos, addPos.IsValid() && !early.IsValid(),
+					"Size() can return before the length of the unknown-field storage is added: a message whose known fields are all unset reports a size without its unknown fields, and Marshal drops them")
+			}
 			r.GroupOb("K-sized", "Size() counts the unknown-field storage", mc.name(), mc.pos(ex, mc.size.Pos()), gotS == want,
 				fmt.Sprintf("Size() counts %s for m.%s, expected %s: unknown fields kept by Unmarshal are not part of the encoded size", gotS, store, want))
 			r.GroupOb("K-emitted", "MarshalTo() re-emits the unknown-field storage", mc.name(), mc.pos(ex, mc.marshalTo.Pos()), gotM == want,
@@ -266,6 +322,29 @@ func checkC09(r *core.Result) {
 				})
 				r.GroupOb("H-atomic", "size cache accessed only through sync/atomic in "+fd.Name.Name, mc.name(), mc.pos(ex, fd.Pos()), okAtomic, "the size-cache field is read or written without sync/atomic: concurrent Size/Marshal calls on an unmodified message race")
 				r.GroupOb("H-readonly", fd.Name.Name+" does not store to message fields", mc.name(), mc.pos(ex, fd.Pos()), len(badStore) == 0, "stores to "+strings.Join(badStore, ", ")+" while marshaling")
+			}
+			// (iii) the cache belongs to Size(): it is the only generated method that computes the size, so any
+			// other method that writes the field stores something that is not the size of the current contents
+			for _, fd := range []*ast.FuncDecl{mc.marshal, mc.marshalTo, mc.unmarshal, mc.checkReq} {
+				if fd == nil || fd.Body == nil {
+					continue
+				}
+				rv := recvObj(info, fd)
+				var touch token.Pos
+				ast.Inspect(fd.Body, func(nn ast.Node) bool {
+					if x, ok := nn.(*ast.SelectorExpr); ok {
+						if id, ok := x.X.(*ast.Ident); ok && info.Uses[id] == rv && x.Sel.Name == cache && !touch.IsValid() {
+							touch = x.Pos()
+						}
+					}
+					return true
+				})
+				pos := mc.pos(ex, fd.Pos())
+				if touch.IsValid() {
+					pos = mc.pos(ex, touch)
+				}
+				r.GroupOb("H-cache-owner", "only Size() touches the size cache (not "+fd.Name.Name+")", mc.name(), pos, !touch.IsValid(),
+					fd.Name.Name+"() reads or writes the size cache: a value that is not the computed size of the current contents reaches the cache, and the next Size()/Marshal() trusts it")
 			}
 			okW, why := marshalWrapperOK(mc)
 			r.GroupOb("H-wrapper", "Marshal() = make(Size()) + MarshalTo", mc.name(), mc.pos(ex, mc.marshal.Pos()), okW, why)
